@@ -29,12 +29,12 @@
   * `smwpm_*_never_fails_of_pm`, `smwpm_*_max_cardinality_of_pm` — from ANY perfect matching of the symmetry graph.
   * `line_planar_bounded`, `line_toric_bounded`, `exY_is_yonly` — kernel evaluation of the constructors on 4×4.
 
+  PROVED ELSEWHERE (Props/C02/SmwpmEven.lean, all sizes): necessity of `LineEvenP` / `LineEvenT` at infinite bias
+  (`smwpm_*_line_even_necessary`, `smwpm_*_pm_iff_infinite_bias`; `no_pm_single_x_bounded`: a single X error on the 4×4
+  planar code — row 0 odd — has no perfect matching) and of `Feasible` / `FeasibleT` for `p = 0`
+  (`smwpm_*_feasible_necessary_p_zero`, `smwpm_*_pm_iff_p_zero`).
+
   STATED, NOT PROVED:
-  * necessity of `LineEvenP` / `LineEvenT` at infinite bias (a row node has neighbours only in its row and its twin, so a
-    line without virtual plaquettes and an odd number of defects cannot be covered; evaluation: a single X error on the
-    4×4 planar code — row 0 odd — has no perfect matching, on 3×3 — every line has a virtual plaquette — it has);
-  * necessity of `Feasible` for `p = 0` (a defect node has only time-like neighbours at its own plaquette; evaluation
-    3×3, T = 1: of the 256 arrays only the zero array has a perfect matching when `p = 0`);
   * that `gt.mwpm` returns a maximum-cardinality matching is C13's statement (hypothesis `IsMaxCardinality`).
 -/
 import QecVerif.Props.C02.SmwpmExists
